@@ -76,7 +76,7 @@ def sort_mc(tier):
     (SortMC_unrepaired.cfg, before the repair of F113) must fail."""
     def one(maxctes, maxsteps, workers):
         cfg = os.path.join(SPEC, f"SortMC_{os.getpid()}_{maxctes}_{maxsteps}.cfg")
-        open(cfg, "w").write(f"SPECIFICATION Spec\nCONSTANTS\n  RepairedSI = TRUE\n  MaxCtes = {maxctes}\n  MaxSteps = {maxsteps}\nINVARIANT MachineMeetsMeaning\nCHECK_DEADLOCK FALSE\n")
+        open(cfg, "w").write(f"SPECIFICATION Spec\nCONSTANTS\n  RepairedSI = TRUE\n  Mutant = \"none\"\n  MaxCtes = {maxctes}\n  MaxSteps = {maxsteps}\n  AllowF42 = FALSE\nINVARIANT MachineMeetsMeaning\nCHECK_DEADLOCK FALSE\n")
         try:
             return tlc("SortMC", os.path.basename(cfg), workers=workers, xmx="12g", timeout=3 * 3600)
         finally:
@@ -88,10 +88,44 @@ def sort_mc(tier):
     if not info["no_error"]:
         res["error_text"] = info.get("error_text", out[-3000:])
         return res
-    out2, info2 = tlc("SortMC", "SortMC_unrepaired.cfg", workers=4)
-    if info2["no_error"] or "MachineMeetsMeaning is violated" not in out2 or "sort-not-redirected" not in out2:
-        raise ToolError("SortMC on the machine as found (before the F113 repair) no longer finds the CTE read twice whose carried sort column is redirected for one instance only: the model has gone vacuous")
-    res["unrepaired_machine_violates"] = "MachineMeetsMeaning (sort-not-redirected)"
+    # anti-vacuity: the pass as found before the F113 repair, the F42 shape (known finding: the empty Sort pushed at the end of
+    # the main relation hides the sort of a take), and three deliberate mistakes must each be refuted with its verdict
+    refuted = {}
+    def must_fail(module, cfg_text, want, what, workers=4):
+        cfg = os.path.join(SPEC, f"{module}_{os.getpid()}_av.cfg")
+        open(cfg, "w").write(cfg_text)
+        try:
+            o, i = tlc(module, os.path.basename(cfg), workers=workers)
+        finally:
+            os.remove(cfg)
+        if i["no_error"] or want not in o:
+            raise ToolError(f"{module} no longer refutes {what} (expected {want}): the model has gone vacuous")
+        refuted[what] = want
+    base = "SPECIFICATION Spec\nCONSTANTS\n  RepairedSI = {r}\n  Mutant = \"{m}\"\n  MaxCtes = {c}\n  MaxSteps = {st}\n  AllowF42 = {f}\nINVARIANT MachineMeetsMeaning\nCHECK_DEADLOCK FALSE\n"
+    must_fail("SortMC", base.format(r="FALSE", m="none", c=1, st=2, f="FALSE"), "sort-not-redirected", "the pass before the F113 repair")
+    must_fail("SortMC", base.format(r="TRUE", m="none", c=1, st=2, f="TRUE"), "take-order", "known finding F42 (a take whose stand-alone Sort the flattener dropped, in the main relation)")
+    must_fail("SortMC", base.format(r="TRUE", m="join-clears", c=1, st=3, f="FALSE"), "final-order", "mutant: a join forgets the order of its left input")
+    must_fail("SortMC", base.format(r="TRUE", m="take-prefers-inherited", c=2, st=2, f="FALSE"), "take-order", "mutant: a take prefers the inherited sorting to its own sort")
+    must_fail("SortMC", base.format(r="TRUE", m="distinct-keeps", c=1, st=3, f="FALSE"), "distinct-select-extended", "mutant: DISTINCT keeps the sorting")
+    res["refuted_on_every_run"] = refuted
+    # end to end: BackendMC's pipelines cut by the split machine (Part A), post-processed by the sort machine (Part E), judged
+    # against the meaning of the uncut pipeline
+    ss = "SPECIFICATION SpecX\nCONSTANTS\n  Repaired = TRUE\n  RepairedSI = TRUE\n  Mutant = \"{m}\"\n  MaxLen = {n}\n  MaxComp = 1\n  Kinds = {{\"Filter\", \"Aggregate\", \"Sort\", \"Take\", \"Distinct\", \"DistinctOn\", \"Join\", \"Union\"}}\n  Emit = FALSE\n  Report = FALSE\nINVARIANTS SplitKeepsOrder SortsMeetMeaning\nCHECK_DEADLOCK FALSE\n"
+    n = 3 if tier == "quick" else 4
+    cfg = os.path.join(SPEC, f"SplitSortMC_{os.getpid()}.cfg")
+    open(cfg, "w").write(ss.format(m="none", n=n))
+    try:
+        o3, i3 = tlc("SplitSortMC", os.path.basename(cfg), workers=6 if tier == "quick" else 12, xmx="16g", timeout=3 * 3600)
+    finally:
+        os.remove(cfg)
+    res["split_then_sort"] = {"bound": f"<= {n} transforms between From and Select, <= 1 Compute", "states": i3.get("distinct"), "invariants": ["SplitKeepsOrder", "SortsMeetMeaning"],
+                              "holds": i3["no_error"], "wall_s": i3["wall_s"]}
+    if not i3["no_error"]:
+        res["holds"] = False
+        res["error_text"] = i3.get("error_text", o3[-3000:])
+        return res
+    must_fail("SplitSortMC", ss.format(m="join-clears", n=3), "SortsMeetMeaning is violated", "mutant join-clears on the cut pipelines", workers=6)
+    res["states"] = (res.get("states") or 0) + (i3.get("distinct") or 0)
     return res
 
 # ------------------------------------------------------------------------------------------------------------------
